@@ -261,8 +261,70 @@ fn compare(tokens: &[String], model: &str, report: &mut Report) {
     }
 }
 
-pub fn run(_prop: &str, rng: &mut Rng, n: usize, report: &mut Report) {
-    let mut hs: Vec<Vec<String>> = Vec::new();
+/// every history of ≤ `max_len` steps over {submit f, remove f | f < 3} ∪ {reindex} for 4 fixed contribution shapes
+pub fn exhaustive_histories(max_len: usize) -> Vec<Vec<String>> {
+    let t = |v: &[&str]| v.iter().map(|s| s.to_string()).collect::<Vec<String>>();
+    let shapes: Vec<Vec<Vec<String>>> = vec![
+        // all files push under the same keys
+        vec![t(&["k:0:0:1:1", "n:0:0:1:1", "n:0:1:1:2", "p:0:0:1"]), t(&["k:1:0:1:2", "n:1:0:1:1", "n:1:1:1:3", "p:1:10:0"]), t(&["k:2:0:1:3", "k:2:0:1:3", "n:2:0:1:4", "p:2:11:2"])],
+        // disjoint keys, id-owned entries
+        vec![t(&["k:0:0:0:1", "o:0:0:0:0", "o:0:0:1:0", "n:0:0:0:1"]), t(&["k:1:0:1:1", "o:1:0:0:0", "n:1:1:1:1"]), t(&["k:2:0:2:1", "o:2:0:2:0", "o:2:0:2:0", "p:2:0:3", "p:2:0:3"])],
+        // doc properties: shared owner 0, private owners
+        vec![t(&["d:0:0:0:1", "d:0:100:0:2", "d:0:100:1:3"]), t(&["d:1:0:1:4", "d:1:110:0:5"]), t(&["d:2:1:0:6", "d:2:120:1:7", "k:2:0:0:1"])],
+        // sets with duplicates, mixed
+        vec![t(&["p:0:10:1", "p:0:10:1", "p:0:11:0", "n:0:0:2:1", "n:0:0:2:1"]), t(&["p:1:10:0", "p:1:11:0", "p:1:11:3", "k:1:0:3:1"]), t(&["p:2:0:1", "p:2:0:1", "o:2:0:3:0", "n:2:1:3:5"])],
+    ];
+    let mut out = Vec::new();
+    for contrib in &shapes {
+        // op codes: 0..3 submit f, 3..6 remove f, 6 reindex
+        let mut frontier: Vec<Vec<u8>> = vec![vec![]];
+        for _ in 0..max_len {
+            let mut next = Vec::new();
+            for h in &frontier {
+                for o in 0..7u8 {
+                    let mut h2 = h.clone();
+                    h2.push(o);
+                    next.push(h2);
+                }
+            }
+            for h in &next {
+                let mut live = [false; 3];
+                let mut toks: Vec<String> = Vec::new();
+                for &o in h {
+                    match o {
+                        0..=2 => {
+                            let f = o as usize;
+                            if live[f] { toks.push(format!("r:{f}")); }
+                            toks.extend(contrib[f].iter().cloned());
+                            live[f] = true;
+                        }
+                        3..=5 => {
+                            let f = (o - 3) as usize;
+                            toks.push(format!("r:{f}"));
+                            live[f] = false;
+                        }
+                        _ => {
+                            toks.push("x".into());
+                            toks.push("c".into());
+                            for f in 0..3 {
+                                if live[f] { toks.extend(contrib[f].iter().cloned()); }
+                            }
+                        }
+                    }
+                    toks.push("c".into());
+                    toks.push("g".into());
+                }
+                out.push(toks);
+            }
+            frontier = next;
+        }
+    }
+    out
+}
+
+pub fn run(_prop: &str, rng: &mut Rng, n: usize, thorough: bool, report: &mut Report) {
+    let mut hs: Vec<Vec<String>> = if thorough { exhaustive_histories(5) } else { exhaustive_histories(3) };
+    report.add("db_tie_exhaustive_histories", hs.len() as u64);
     for i in 0..n {
         hs.push(gen_history(rng, i % 3 == 0));
     }
